@@ -358,3 +358,6 @@ func (r *Report) Violations() []*Instance {
 	}
 	return out
 }
+
+// Prog returns the program under analysis.
+func (r *RuleRun) Prog() *Program { return r.rep.Prog }
